@@ -1,15 +1,29 @@
 #!/bin/sh
 # Run every seeded change under /verif/seeded against every claimed check (quick tier) and record
-# which checks fire in each meta.json. usage: tools/mutant_matrix.sh [tier]
+# which checks fire in each meta.json. Uses tools/par_mutants.py: four changes at a time, each on
+# its own scratch worktree of /repo HEAD (the campaigns' results do not depend on the worker count,
+# so this decides exactly what `./check <ID> quick` on the patched /repo decides).
+# usage: tools/mutant_matrix.sh [tier]
 here="$(cd "$(dirname "$0")/.." && pwd)"
 tier="${1:-quick}"
-for d in "$here"/seeded/*/; do
-  id=$(basename "$d")
-  res=$("$here/tools/try_mutant.sh" "$d/patch.diff" "$tier" 2>&1 | grep '^CAUGHT_BY' | sed 's/CAUGHT_BY: *//')
-  echo "$id: $res"
-  python3 - "$d/meta.json" "$res" "$tier" <<'PY'
-import json,sys
-p,res,tier=sys.argv[1],sys.argv[2],sys.argv[3]
-m=json.load(open(p)); m["caught_by_"+tier]=[] if res.strip()=="none" else res.split(); json.dump(m,open(p,"w"),indent=1)
+work=/tmp/mutant_matrix; rm -rf "$work"; mkdir -p "$work"
+ls -d "$here"/seeded/*/ | sed 's|/$|/patch.diff|' > "$work/list.txt"
+python3 "$here/tools/par_mutants.py" --list "$work/list.txt" --out "$work/results.jsonl" --jobs 4 --workers 4 --tier "$tier" --scratch /tmp/mm_matrix > "$work/run.log" 2>&1
+python3 - "$work/results.jsonl" "$tier" <<'PY'
+import json, os, sys
+res, tier = sys.argv[1], sys.argv[2]
+rows = sorted((json.loads(l) for l in open(res)), key=lambda r: r["patch"])
+for r in rows:
+    d = os.path.dirname(r["patch"])
+    mp = os.path.join(d, "meta.json")
+    m = json.load(open(mp))
+    if r["verdict"] in ("caught", "survived"):
+        m["caught_by_" + tier] = r["caught_by"]
+    else:
+        m["caught_by_" + tier] = None
+    json.dump(m, open(mp, "w"), indent=1)
+    print(f"{os.path.basename(d)}: {r['verdict']} {' '.join(r['caught_by'])} {' '.join(r['errors'])}")
+n = len(rows); c = sum(1 for r in rows if r["verdict"] == "caught")
+print(f"matrix: {n} seeded changes, {c} caught, {n - c} not caught or not run")
 PY
-done
+rm -rf "$work"
